@@ -1,10 +1,12 @@
 import os, sys
 sys.path.insert(0, os.path.dirname(os.path.dirname(os.path.abspath(__file__))))
-from srcgen import regen_src  # pre-build generator: crc.go / encoding.go -> Gen/SrcPure.v
+from srcgen import regen_src
+from srcreplay import replay_src  # translated source run in Coq vs the real outputs  # pre-build generator: crc.go / encoding.go -> Gen/SrcPure.v
 
 PROP = {
     "coq": ["C17", "C17s"],
     "pre": [regen_src],
+    "extra": [replay_src({'dec32s', 'enc32', 'dec16', 'enc64f', 'enc16', 'dec64s', 'dec64sf', 'enc32f', 'dec32sf', 'encb', 'dec16s', 'enc16s', 'decb', 'enc64'})],
     "exhaustive": False,
     "rule": "16-bit codecs: all 2^16 values x 2 byte orders, both directions (exhaustive); the list encoder uint16sToBytes on random lists, called twice on the same slice with sentinels in its spare capacity (output = layout, slice and spare capacity unchanged, second call equal). 32/64-bit: "
             "per-byte-position exhaustion over 4 backgrounds, walking ones/zeros, NaN/inf/-0/subnormal patterns "
